@@ -442,7 +442,58 @@ def chunks(it, n):
         yield buf
 
 
+DEFINE_SPECS = [  # (value, unit it is given in, exact SI scale, dimension of the new unit)
+    (0.75, "m", 0.75, "length"), (3.0, "km", 3000.0, "length"), (2.0, "hr", 7200.0, "time"), (5.0, "g", 0.005, "mass"),
+    (1.5, "erg", 1.5e-7, "energy"), (2.0, "mile/hr", 2.0 * 1609.344 / 3600.0, "velocity"), (4.0, "dyn", 4.0e-5, "force"),
+]
+
+
+def part_define(ctx, shard):
+    """user-defined units: the scale stored by define_unit / UnitRegistry.add / modify is the SI scale of the definition,
+    whatever default unit system the registry was created with, and prefixed / compound uses inherit it"""
+    from unyt import dimensions as udims
+    from unyt.unit_object import define_unit
+    from unyt.unit_registry import UnitRegistry
+    from unyt import unyt_quantity
+
+    world.reset_world()
+    for us in shard:
+        for (v, u, si_scale, dimname), form in itertools.product(DEFINE_SPECS, ("tuple", "quantity", "quantity-in-registry", "modify-quantity")):
+            ctx.count("evaluations")
+            reg = UnitRegistry() if us is None else UnitRegistry(unit_system=us)
+            case = {"part": "define", "unit_system": us, "value": v, "given_in": u, "form": form}
+            base = f"C02|define|system={us}|form={form}|dim={dimname}"
+            try:
+                if form == "tuple":
+                    define_unit("pace", (v, u), prefixable=True, registry=reg)
+                elif form == "quantity":
+                    define_unit("pace", unyt_quantity(v, u), prefixable=True, registry=reg)
+                elif form == "quantity-in-registry":
+                    define_unit("pace", unyt_quantity(v, u, registry=reg), prefixable=True, registry=reg)
+                else:
+                    reg.add("pace", 1.0, getattr(udims, dimname), prefixable=True)
+                    reg.modify("pace", unyt_quantity(v, u, registry=reg))
+                got = Unit("pace", registry=reg)
+                kgot = Unit("kpace", registry=reg)
+                comp = Unit("pace**2/s", registry=reg)
+                q = float(unyt_quantity(8.0, "pace", registry=reg).to(u).d)
+            except Exception as e:  # noqa: BLE001
+                ctx.violation(base + f"|mode=raises:{type(e).__name__}", case, "a unit", str(e)[:100])
+                continue
+            ctx.decided(("define", us, v, u, form))
+            ctx.outcome(("define", us, form, dimname))
+            ref_dim = dim_of(getattr(udims, dimname))
+            if dim_of(got.dimensions) != ref_dim:
+                ctx.violation(base + "|mode=wrong-dimension", case, repr(ref_dim), str(got.dimensions))
+            for label, obj, want in (("atom", got, si_scale), ("prefixed", kgot, 1000.0 * si_scale), ("compound", comp, si_scale**2)):
+                if abs(float(obj.base_value) / want - 1.0) > 16 * EPS:
+                    ctx.violation(base + f"|use={label}|mode=wrong-scale", case, want, float(obj.base_value))
+            if abs(q / (8.0 * v) - 1.0) > 64 * EPS:
+                ctx.violation(base + "|use=conversion|mode=wrong-scale", case, 8.0 * v, q)
+
+
 def run(ctx):
+    harness.pmap(ctx, part_define, [[None], ["cgs"], ["imperial"], ["galactic"], ["mks"]])
     names = names_cases()
     harness.pmap(ctx, part_names, list(chunks(names, 400)))
     groups = pair_groups(ctx.tier)
@@ -477,7 +528,9 @@ def run(ctx):
 def replay(case):
     ctx = harness.Ctx(PROPERTY, "quick", 0)
     part = case.get("part")
-    if part == "names":
+    if part == "define":
+        part_define(ctx, [case["unit_system"]])
+    elif part == "names":
         part_names(ctx, [(case["kind"], case["name"])])
     elif part == "pairs":
         part_pairs(ctx, [([case["from"]], [case["to"]])])
